@@ -9,19 +9,25 @@ PROP = dict(
               "invariant over all operation histories (Session/LifeInv.v); pre-fix behaviour kept as kernel-checked "
               "refutation witnesses.  Tie to the code: differential execution of expiry / reconnect histories with "
               "virtual-time ticks at -1/0/+1 of every deadline on the real broker.",
-    level_text="C15_nothing_left_partial + C15_index_belongs_to_sessions: for every configuration and every history of "
-               "operations, every topic-index entry belongs to a registered session holding that subscription (so "
-               "nothing of a discarded session can reach a later connection with its id) - the clause the pre-fix code "
-               "violated; C15_prefix_expiry_refuted / C15_prefix_disconnect_cap_refuted: the monitor rejects the pre-fix "
-               "traces and accepts the repaired model.  The clauses on WHEN a session is discarded, the behavioural "
-               "'receives nothing' clause and 'DISCONNECT cannot raise' are decided on every run by the monitor applied to "
-               "the real broker's observations and by exact correspondence of broker and model (no mismatch tolerated); "
-               "their proof for all histories of the model is not finished (partial).",
+    level_text="For every configuration and every history of operations (all on the model's reachable states): "
+               "C15_when - a session leaves Clients only by the housekeeping tick when it is disconnected and more than its "
+               "interval has elapsed, or at the end of its own connection when it ends with the connection (expiry 0 / "
+               "MQTT 3 clean); never by a takeover, a late teardown or anything else; C15_never_while_connected - an open "
+               "connection is always the registered one; C15_interval_capped - the kept interval never exceeds the server "
+               "maximum (CONNECT and DISCONNECT); C15_disconnect_cannot_raise - raising a zero interval is a protocol "
+               "error, the interval stays 0 and the session is gone; C15_nothing_left_partial + "
+               "C15_index_belongs_to_sessions - every topic-index entry belongs to a registered session holding that "
+               "subscription (the clause the pre-fix code violated: C15_prefix_expiry_refuted, "
+               "C15_prefix_disconnect_cap_refuted are the kernel-checked pre-fix witnesses).  Not proved for all "
+               "histories (partial): the behavioural clause 'every delivery is justified by a subscription of the "
+               "current session' and the liveness clauses of the monitor; they are decided on every run by mon15 on "
+               "the real broker's observations and by exact broker/model correspondence.",
     level_note="Trusted: Coq kernel, extraction, OCaml driver, Go broker harness, the verif-tag snapshot of Clients / topic "
                "index / delayed wills.  Modelled not verified: literal topic filters, wall-clock stamps taken from the "
                "second in which the step ran (histories straddling a second boundary are re-run), the persistent store.",
     engines=[dict(hx="life", args=["C15"], model="life15")],
-    theorems=["C15_nothing_left_partial", "C15_index_belongs_to_sessions", "C15_prefix_expiry_refuted",
+    theorems=["C15_nothing_left_partial", "C15_index_belongs_to_sessions", "C15_when", "C15_never_while_connected",
+              "C15_interval_capped", "C15_disconnect_cannot_raise", "C15_prefix_expiry_refuted",
               "C15_prefix_disconnect_cap_refuted"],
     model_files="coq/Session/Lifecycle.v",
     rule="scenario product: server maximum {2^32-1, 10} x 8 session kinds (MQTT 5 expiry 5/0/absent/50, MQTT 4 persistent / "
